@@ -634,3 +634,7 @@ pub unsafe fn decode_list_view<O: OffsetSizeTrait>(
         Some(null_buffer).filter(|n| n.null_count() > 0),
     )
 }
+
+#[cfg(kani)]
+#[path = "/verif/kani/arrow-row/list.rs"]
+mod verif_kani;
